@@ -168,8 +168,18 @@ def subst_bv(v, d, elem, k: int):
     return v
 
 
+def _unwrap_seq(it):
+    while it[0] == "list" and len(it[1]) == 1 and it[1][0][0] == "spread":
+        it = it[1][0][1]
+    return it
+
+
 def mk_comp(d, it, items, conds=()):
     items = tuple(items)
+    it = _unwrap_seq(it)
+    if len(items) == 1 and items[0][0] == "when":
+        conds = tuple(conds) + (items[0][1],)
+        items = (items[0][2],)
     if it[0] == "c" and isinstance(it[1], (tuple, str)):
         it = ("list", tuple(C(x) for x in it[1]))
     if it[0] == "list" and not any(i[0] in ("spread", "when") for i in it[1]) and len(it[1]) <= 12:
@@ -214,6 +224,9 @@ def mk_join(sep, seq):
 def mk_not(v):
     if v[0] == "not":
         return v[1]
+    if v[0] == "call" and v[1] in ("any", "all") and len(v[2]) == 1 and v[2][0][0] == "comp" and len(v[2][0][3]) == 1:
+        cp = v[2][0]
+        return ("call", "all" if v[1] == "any" else "any", (("comp", cp[1], cp[2], (mk_not(cp[3][0]),), cp[4]),), ())
     if v[0] == "c":
         return C(not v[1])
     if v[0] == "cmp":
@@ -244,13 +257,37 @@ def mk_if(cond, a, b):
     # boolean-valued conditional expression
     if a == C(True) and b == C(False):
         return cond
+    if a == C(False) and b == C(True):
+        return mk_not(cond)
+    # all(f(x) for x in P) is True for an empty P
+    if a == C(True) and cond[0] == "not" and b[0] == "call" and b[1] == "all" and len(b[2]) == 1 and b[2][0][0] == "comp" and b[2][0][2] == _unwrap_seq(cond[1]):
+        return b
+    if b == C(True) and a[0] == "call" and a[1] == "all" and len(a[2]) == 1 and a[2][0][0] == "comp" and a[2][0][2] == _unwrap_seq(cond):
+        return a
     # if A: (x if B else y) else y  ==  x if (A and B) else y
     if a[0] == "if" and a[3] == b:
         return mk_if(mk_and(cond, a[1]), a[2], b)
     return ("if", cond, a, b)
 
 
+def mk_or(a, b):
+    return mk_not(mk_and(mk_not(a), mk_not(b)))
+
+
+def _fold_or(cs):
+    out = cs[0]
+    for c in cs[1:]:
+        out = mk_or(out, c)
+    return out
+
+
 def mk_and(a, b):
+    if a == C(True):
+        return b
+    if b == C(True):
+        return a
+    if a == C(False) or b == C(False):
+        return C(False)
     items = []
     for v in (a, b):
         if v[0] == "bool" and v[1] == "and":
@@ -294,6 +331,12 @@ def mk_cmp(op, a, b):
     if op in ("in", "not in") and a[0] == "c" and b[0] == "dict" and all(k[0] == "c" for k, _ in b[1]):
         r = any(k == a for k, _ in b[1])
         return C(r if op == "in" else not r)
+    # emptiness tests
+    if a[0] == "call" and a[1] == "len" and len(a[2]) == 1 and b == C(0):
+        if op == "==":
+            return mk_not(a[2][0])
+        if op in ("!=", ">"):
+            return a[2][0]
     # position tests of an enumerate counter
     if a[0] == "idx" and b[0] == "c" and a[2] == b and op in ("==", "!="):
         f = ("first", a[1])
@@ -451,6 +494,7 @@ class AV:
         self._modenv: dict[str, dict] = {}
         self.call_log: list = []  # (caller Func, call node, value) for every opaque call met (in order)
         self._budget = 200000
+        self._imp: dict = {}
         self.attr_stores: list = []  # (function, value of the object, attribute, value stored, node)
 
     @staticmethod
@@ -514,17 +558,40 @@ class AV:
                     r1 = self._run(list(st.body) + rest, f1, cont)
                     r2 = self._run(list(st.orelse) + rest, f2, cont)
                     soft = (_FALL, _CONT)
-                    if any(r is x for r in (r1,) for x in soft) and any(r is x for r in (r2,) for x in soft):
+                    s1 = any(r1 is x for x in soft)
+                    s2 = any(r2 is x for x in soft)
+                    if s1 and s2:
                         # both branches reach the end of this iteration / block: merge what they did
                         self._phi(cond, f1.env, f2.env, fr)
                         return _CONT if (r1 is _CONT and r2 is _CONT) else _FALL
+                    marks = (_FALL, _CONT, _BREAK, _MIXED)
+                    m1 = any(r1 is x for x in marks)
+                    m2 = any(r2 is x for x in marks)
+                    if (s1 or s2) and not (m1 and m2):
+                        # one branch leaves the function (possibly only under a further condition), the other
+                        # completes the block: a partial return
+                        rv, rs = (r2, r1) if s1 else (r1, r2)
+                        cv = mk_not(cond) if s1 else cond
+                        fv, fs = (f2, f1) if s1 else (f1, f2)
+                        if rv[0] == "pret":
+                            self._phi(cv, fv.env, fs.env, fr)
+                            return ("pret", mk_and(cv, rv[1]), rv[2])
+                        fr.env.clear()
+                        fr.env.update(fs.env)
+                        return ("pret", cv, rv)
                     fr.env.clear()
                     fr.env.update(f2.env if (_always_exits(st.body) or any(r1 is x for x in (_BREAK, _MIXED))) else f1.env)
-                    marks = (_FALL, _CONT, _BREAK, _MIXED)
-                    if any(r1 is x for x in marks) and any(r2 is x for x in marks):
+                    if m1 and m2:
                         return _BREAK if (r1 is _BREAK and r2 is _BREAK) else _MIXED
-                    if any(r1 is x for x in marks) or any(r2 is x for x in marks):
-                        return unk("a branch of the block exits the function, the other does not")
+                    if m1 or m2:
+                        return unk("a branch of the block exits the function, the other leaves a loop")
+                    if r1[0] == "pret" or r2[0] == "pret":
+                        p1 = r1 if r1[0] == "pret" else ("pret", C(True), r1)
+                        p2 = r2 if r2[0] == "pret" else ("pret", C(True), r2)
+                        if p1[2] == p2[2]:
+                            self._phi(cond, f1.env, f2.env, fr)
+                            return ("pret", mk_if(cond, p1[1], p2[1]), p1[2])
+                        return unk("partial returns with different values")
                     return mk_if(cond, r1, r2)
                 self._merge_if(st, cond, fr)
                 continue
@@ -533,9 +600,20 @@ class AV:
             if isinstance(st, ast.Continue):
                 return _CONT
             if isinstance(st, ast.For):
-                r = self._for(st, fr)
+                has_break = any(isinstance(n, ast.Break) for s_ in st.body for n in walk_no_nested(s_, include_self=True))
+                orelse = list(st.orelse)
+                r = self._for(st, fr, run_else=has_break)
+                if r is not None and r[0] == "pret":
+                    rr = self._run(([] if has_break else orelse) + rest, fr, cont)
+                    if any(rr is x for x in (_FALL, _CONT, _BREAK, _MIXED)):
+                        return r if (rr is _FALL or rr is _CONT) else unk("partial return followed by a loop exit")
+                    if rr[0] == "pret":
+                        return ("pret", mk_or(r[1], rr[1]), r[2]) if rr[2] == r[2] else unk("partial returns with different values")
+                    return mk_if(r[1], r[2], rr)
                 if r is not None:
                     return r
+                if orelse and not has_break:
+                    return self._run(orelse + rest, fr, cont)
                 continue
             if isinstance(st, ast.With):
                 for it in st.items:
@@ -642,7 +720,7 @@ class AV:
             self._run(list(st.finalbody), fr, ())
         return r
 
-    def _for(self, st: ast.For, fr: Frame):
+    def _for(self, st: ast.For, fr: Frame, run_else: bool = True):
         d = fr.binder + 1
         it = self._ev(st.iter, fr)
         it, idx = self._iter(it, d)
@@ -658,6 +736,7 @@ class AV:
         if known[0] == "list" and not any(i[0] in ("spread", "when") for i in known[1]) and len(known[1]) <= 16 and any(isinstance(n, (ast.Break, ast.Return)) for s_ in st.body for n in ast.walk(s_)):
             # a loop over a known sequence that can leave early is executed element by element
             broke = False
+            prets = []
             for k, elem in enumerate(known[1]):
                 self._bind(st.target, elem if idx is None else ("list", (C((idx[2][1] if idx[2][0] == "c" else 0) + k), elem)), fr)
                 r = self._run(list(st.body), fr, ())
@@ -670,8 +749,25 @@ class AV:
                     for k_ in assigned:
                         fr.env[k_] = unk("loop left under a condition that is not decided")
                     return None
+                if r[0] == "pret":
+                    prets.append(r)
+                    continue
+                if prets:
+                    if all(q[2] == r for q in prets):
+                        return r if False else mk_if(_fold_or([q[1] for q in prets]), r, r)
+                    return unk("partial returns with different values")
                 return r
-            if not broke and st.orelse:
+            if prets:
+                if len({q[2] for q in prets}) != 1:
+                    return unk("partial returns with different values")
+                pr = ("pret", _fold_or([q[1] for q in prets]), prets[0][2])
+                if not broke and st.orelse and run_else:
+                    r = self._run(list(st.orelse), fr, ())
+                    if r is _FALL:
+                        return pr
+                    return mk_if(pr[1], pr[2], r) if r[0] != "pret" else unk("partial return in for/else")
+                return pr
+            if not broke and st.orelse and run_else:
                 r = self._run(list(st.orelse), fr, ())
                 if r is not _FALL:
                     return r
@@ -679,7 +775,13 @@ class AV:
         inner = Frame(fr.func, fr.rel, inner_env, fr.depth, d)
         self._bind_loop_target(st.target, it, idx, d, inner)
         r = self._run(list(st.body), inner, ())
-        jumps = "<jump>" in inner.env or not (r is _FALL or r is _CONT) or any(isinstance(n, (ast.Break, ast.Return)) for s_ in st.body for n in ast.walk(s_)) or bool(st.orelse)
+        pret = None
+        if isinstance(r, tuple) and r and r[0] == "pret" and not has(r, "acc"):
+            # the body returns r[2] for an element satisfying r[1]: the loop returns it if any element does
+            if not (has(r[2], "bv") or has(r[2], "idx") or has(r[2], "first")):
+                pret = ("pret", ("call", "any", (mk_comp(d, it, (r[1],)),), ()), r[2])
+                r = _FALL
+        jumps = "<jump>" in inner.env or not (r is _FALL or r is _CONT) or any(isinstance(n, ast.Break) for s_ in st.body for n in walk_no_nested(s_, include_self=True)) or (bool(st.orelse) and run_else)
         tnames = set(_target_names(st.target))
         # carried element-independent values: pre-loop value in the first iteration, the new value afterwards
         carried = {}
@@ -728,7 +830,9 @@ class AV:
                     fr.env[k] = ("fold", d, it, old, new)
                 continue
             fr.env[k] = ("fold", d, it, old, subst(new, {acc: ("acc", d)}))
-        return None
+        if jumps and isinstance(r, tuple) and r and r[0] not in ("fall", "continue", "break", "mixed-exit"):
+            return unk("loop with an exit that is not understood")
+        return pret
 
     def _iter(self, it, d):
         """(sequence iterated, index term or None)"""
@@ -901,19 +1005,10 @@ class AV:
             return ("op", "neg" if isinstance(n.op, ast.USub) else "pos", v, NONE)
         if isinstance(n, ast.BoolOp):
             vals = [self._truth(self._ev(v, fr)) for v in n.values]
-            kind = "and" if isinstance(n.op, ast.And) else "or"
-            out = []
-            for v in vals:
-                if v[0] == "c":
-                    if (kind == "and" and not v[1]) or (kind == "or" and v[1]):
-                        return v if not out else ("bool", kind, tuple(out + [v]))
-                    continue
-                out.append(v)
-            if not out:
-                return C(kind == "and")
-            if len(out) == 1:
-                return out[0]
-            return ("bool", kind, tuple(out))
+            out = vals[0]
+            for v in vals[1:]:
+                out = mk_and(out, v) if isinstance(n.op, ast.And) else mk_or(out, v)
+            return out
         if isinstance(n, ast.Compare):
             if len(n.ops) != 1:
                 return unk("chained comparison")
@@ -932,7 +1027,10 @@ class AV:
                 if head in self._module_env(fr.rel):
                     base = self._ev(n.value, fr)
                     return _attr(base, n.attr)
-                return ("sym", d_)
+                origin = self._imports(fr.rel).get(head)
+                if origin and not origin.startswith("gotranx"):
+                    d_ = origin + d_[len(head):]
+                return ("sym", canon_sym(d_))
             return _attr(self._ev(n.value, fr), n.attr)
         if isinstance(n, ast.Subscript):
             base = self._ev(n.value, fr)
@@ -989,7 +1087,18 @@ class AV:
             return v
         if name in ("True", "False", "None"):
             return C({"True": True, "False": False, "None": None}[name])
+        origin = self._imports(fr.rel).get(name)
+        if origin and not origin.startswith("gotranx"):
+            return ("sym", canon_sym(origin))
         return ("sym", name)
+
+    def _imports(self, rel: str) -> dict:
+        if rel not in self._imp:
+            try:
+                self._imp[rel] = self.sm.module_imports(rel.replace("src/gotranx/", ""))
+            except Exception:
+                self._imp[rel] = {}
+        return self._imp[rel]
 
     def _module_env(self, rel: str) -> dict:
         if rel not in self._modenv:
@@ -1092,11 +1201,20 @@ class AV:
                 return v
         if isinstance(fn, ast.Attribute):
             if d_ is not None and d_.split(".")[0] not in fr.env and d_.split(".")[0] not in self._module_env(fr.rel):
+                origin = self._imports(fr.rel).get(d_.split(".")[0])
+                if origin and not origin.startswith("gotranx"):
+                    d_ = canon_sym(origin + d_[len(d_.split(".")[0]):])
                 v = ("call", d_, args, kwargs_t)
+                if d_ == "sympy.sympify" and len(args) == 1 and args[0] in (C(True), C(False)):
+                    v = ("sym", "sympy.true" if args[0][1] else "sympy.false")
             else:
                 v = ("mcall", self._ev(fn.value, fr), fn.attr, args, kwargs_t)
         else:
-            v = ("call", d_ or norm(fn), args, kwargs_t)
+            nm = d_ or norm(fn)
+            origin = self._imports(fr.rel).get(nm) if d_ else None
+            if origin and not origin.startswith("gotranx"):
+                nm = canon_sym(origin)
+            v = ("call", nm, args, kwargs_t)
         self.call_log.append((fr.func, n, v))
         return v
 
@@ -1356,7 +1474,13 @@ class AV:
         return self._finish(r, sub)
 
     def _finish(self, r, sub: Frame):
-        return NONE if (r is None or any(r is x for x in (_FALL, _CONT, _BREAK))) else (unk("exit not understood") if r is _MIXED else r)
+        if r is None or any(r is x for x in (_FALL, _CONT, _BREAK)):
+            return NONE
+        if r is _MIXED:
+            return unk("exit not understood")
+        if r[0] == "pret":
+            return mk_if(r[1], r[2], NONE)
+        return r
 
     def returned(self, f: Func, args: dict | None = None):
         """Value of the function (early exits merged as conditionals)."""
@@ -1427,9 +1551,34 @@ def _load(t):
     return t2
 
 
+LIB_ALIASES = {
+    # documented aliases of one object in sympy
+    "sympy.functions.Piecewise": "sympy.Piecewise",
+    "sympy.functions.elementary.piecewise.Piecewise": "sympy.Piecewise",
+    "sympy.S.true": "sympy.true",
+    "sympy.S.false": "sympy.false",
+    "sympy.logic.boolalg.true": "sympy.true",
+    "sympy.core.relational.Relational": "sympy.Rel",
+    "sympy.core.numbers.NegativeOne": "sympy.S.NegativeOne",
+    "sympy.tensor.indexed.Indexed": "sympy.Indexed",
+    "sympy.tensor.indexed.IndexedBase": "sympy.IndexedBase",
+    "sympy.tensor.IndexedBase": "sympy.IndexedBase",
+    "sympy.core.symbol.Symbol": "sympy.Symbol",
+    "sympy.functions.exp": "sympy.exp",
+    "sympy.functions.elementary.exponential.exp": "sympy.exp",
+}
+
+
+def canon_sym(text: str) -> str:
+    for k, v in LIB_ALIASES.items():
+        if text == k or text.startswith(k + "."):
+            return v + text[len(k):]
+    return text
+
+
 def _attr(base, name):
     if base[0] == "sym":
-        return ("sym", base[1] + "." + name)
+        return ("sym", canon_sym(base[1] + "." + name))
     return ("attr", base, name)
 
 
@@ -1480,6 +1629,10 @@ def _assigned(st) -> list[str]:
 
 def _merge(cond, a, b):
     """phi of two values; lists that share a prefix keep it and guard the rest."""
+    if a[0] == "acc" and b[0] == "list" and b[1] and b[1][0] == ("spread", a):
+        a = ("list", (("spread", a),))
+    if b[0] == "acc" and a[0] == "list" and a[1] and a[1][0] == ("spread", b):
+        b = ("list", (("spread", b),))
     if a[0] == "list" and b[0] == "list":
         n = 0
         while n < len(a[1]) and n < len(b[1]) and a[1][n] == b[1][n]:
